@@ -133,6 +133,12 @@ pub struct Rec {
     pub alt_routes: u64,
     /// 1 = a seed-drawn half of the calls, 2 = every call that has an alternative route
     pub alt_mode: u8,
+    /// the last deterministic call each party got a good answer to (per flavour and node): replayed after a refused call
+    pub last_good: std::collections::BTreeMap<(String, usize), Traced>,
+    /// guard: the follow-up calls below are not themselves followed up
+    pub in_aftercare: bool,
+    /// seed of the follow-up draws (0 = no follow-ups)
+    pub aftercare: u64,
 }
 
 impl Rec {
@@ -158,6 +164,9 @@ impl Rec {
             max_samples: 3,
             alt_routes: 0,
             alt_mode: 0,
+            last_good: std::collections::BTreeMap::new(),
+            in_aftercare: false,
+            aftercare: 0,
         }
     }
     pub fn active(&self, prop: &str) -> bool {
@@ -290,7 +299,65 @@ impl Rec {
             // in no-abort mode every consuming call that returned normally is one evaluation
             self.evals += 1;
         }
+        self.after_call(lib, g, op, args, &out, route);
         out
+    }
+
+    /// What a party does after a call, half of the time each, because a REFUSED request must leave nothing behind:
+    /// (A) the identical request once more — it gets the identical answer (a refused request is not accepted on retry, a
+    ///     negative cache does not start refusing what it accepted);
+    /// (B) the last request this party got a good answer to, once more — it still gets that answer.
+    /// Deterministic operations only; the follow-ups run in the same party process as the call they follow.
+    fn after_call(&mut self, lib: &dyn Lib, g: Grp, op: Op, args: &[&[u8]], out: &Out, route: u8) {
+        if self.aftercare == 0 || self.in_aftercare || is_randomized(op) || lib.name() == "pinned" || out.is_panic() {
+            return;
+        }
+        if op == Op::PokTsVerify && crate::seams::work_tick_ns() != 0 {
+            return; // its answer depends on the time that flows during the call
+        }
+        let refused = out.is_rej() || matches!(out, Out::Ok(v) if v.len() == 1 && v[0] == [0u8]);
+        let node = crate::exec::current_node();
+        let key = (lib.name().to_string(), node);
+        if !refused {
+            if args.iter().map(|a| a.len()).sum::<usize>() <= (1 << 14) {
+                self.last_good.insert(key, Traced { lib: lib.name(), g, op, args: args.iter().map(|a| a.to_vec()).collect(), out: out.clone(), clock: crate::seams::clock_ns(), tick: 0, route });
+            }
+            return;
+        }
+        let mut z = self.aftercare ^ self.stats.lib_calls.wrapping_mul(0xD1B5_4A32_D192_ED03);
+        let h = crate::seams::splitmix(&mut z);
+        self.in_aftercare = true;
+        let same = |a: &Out, b: &Out| match (a, b) {
+            (Out::Ok(x), Out::Ok(y)) => x == y,
+            (Out::Rej(_), Out::Rej(_)) => true,
+            _ => false,
+        };
+        let prop = self.property.clone();
+        if h & 1 == 0 {
+            self.stats.probe("refused-request-presented-again");
+            // by the same route as the first time (the struct-level and the trait-level share verifiers legitimately differ on
+            // a share whose identifier label alone was changed)
+            let again = crate::exec::call(lib, g, op, args, 0, route);
+            self.stats.lib_calls += 1;
+            self.expect(&prop, "refused-request-stays-refused", same(&again, out), || format!("{:?} g={} lib={} | the identical request was answered {} the first time and {} when presented again", op, g.name(), lib.name(), out.kind(), again.kind()));
+        }
+        if h & 2 == 0 {
+            if let Some(c) = self.last_good.get(&key).cloned() {
+                if c.clock == crate::seams::clock_ns() || c.op != Op::PokTsVerify {
+                    self.stats.probe("good-request-replayed-after-a-refused-one");
+                    let refs: Vec<&[u8]> = c.args.iter().map(|a| a.as_slice()).collect();
+                    // same route as the first time: the answer is a function of the request
+                    let saved = (self.alt_routes, self.alt_mode);
+                    self.alt_routes = 0;
+                    let o = crate::exec::call(lib, c.g, c.op, &refs, 0, c.route);
+                    self.stats.lib_calls += 1;
+                    self.alt_routes = saved.0;
+                    self.alt_mode = saved.1;
+                    self.expect(&prop, "good-request-unaffected-by-a-refused-one", same(&o, &c.out), || format!("{:?} g={} lib={} | a request that was answered {} is answered {} right after this party's {:?} request was refused", c.op, c.g.name(), lib.name(), c.out.kind(), o.kind(), op));
+                }
+            }
+        }
+        self.in_aftercare = false;
     }
 }
 
